@@ -40,6 +40,7 @@ func DeclareUF(name string, args []string, ret string) {
 
 const prelude = `(set-option :produce-models true)
 (set-logic ALL)
+(declare-sort SeqId 0)
 (define-sort Ref () (_ BitVec 64))
 (define-sort I64 () (_ BitVec 64))
 (define-sort ByteArr () (Array (_ BitVec 64) (_ BitVec 8)))
@@ -89,6 +90,15 @@ func declsWith(terms []*Term, render func(*Term) string, withQAxioms bool) strin
 			body = render(d.Def)
 		}
 		fmt.Fprintf(&sb, "(define-fun %s () %s %s)\n", d.Leaf, sortOf(d), body)
+	}
+	for _, q := range qdefs {
+		if q.Link != nil {
+			body := q.Link.String()
+			if render != nil {
+				body = render(q.Link)
+			}
+			fmt.Fprintf(&sb, "(assert (= %s %s))\n", q.Leaf, body)
+		}
 	}
 	if withQAxioms {
 		for _, q := range qdefs {
